@@ -1,2 +1,330 @@
-/- Oracle for C02 (stub: replaced when the property's model is built). -/
-def main : IO Unit := pure ()
+/-
+  Oracle for C02.  Reads the harness' stream (harness/cmd/c02) case by case and prints, per case:
+
+    G …                       echo of the bond graph line
+    N ok names=ok | N differ <what>      `BMV.Bond.wire` against the netlist extracted from the
+                              emitted bondmachine.v — ports, declarations, instance connections,
+                              assigns; names included
+    H ok | H rejected … | H err …       the emitted file set, elaborated by BMV.Vlog with top `bondmachine`
+    X …                       `BMV.Bm.isaStep` after every V line (compared with the real VM's X line)
+    EV ok | EV differ@<tick>  the Lean environment automaton (closed loop with the model) drives
+                              exactly what the harness' automaton drove into the real VM
+    HI <tick|->               first tick at which the simulator model meets the C04 signature
+    MS s;s;…                  delivered streams, simulator model + Lean environment
+    SH s;s;…                  delivered streams of the emitted Verilog under BMV.Vlog + Lean environment
+    YZ ok <clocks> | YZ differ@<clock> <Y…> <Z…> | YZ fail@<clock> <error>
+                              `BMV.Bm.rtlCycle` against the Verilog, every register, every clock
+    HR <clock|->              first clock at which the hardware model meets the C04 signature
+    SR s;s;…                  delivered streams of `Bm.runRtl` (model + environment, independent loop)
+    Z                         end of case
+-/
+import BMV.Bm
+import BMV.Lines
+import BMV.Vlog.Elab
+open BMV BMV.Bits BMV.Lines BMV.Vlog BMV.Topology BMV.Bond BMV.Bm
+
+def parseBondDots (s : String) : Topology.Bond :=
+  match s.splitOn "." with
+  | [a, b, c] => ⟨nat! a, nat! b, nat! c⟩
+  | _ => ⟨9, 0, 0⟩
+
+def parseGraph (fs : List String) : Option (Nat × Topo) :=
+  match fs with
+  | "G" :: rs :: i :: o :: rest =>
+    let procs := (commaList ((kv rest "P").getD "")).map fun s =>
+      match s.splitOn ":" with | [a, b] => (nat! a, nat! b) | _ => (0, 0)
+    let iin := (commaList ((kv rest "I").getD "")).map parseBondDots
+    let iout := (commaList ((kv rest "O").getD "")).map parseBondDots
+    let links := (commaList ((kv rest "L").getD "")).map fun s => if s = "-" then none else some (nat! s)
+    some (nat! rs, { inputs := nat! i, outputs := nat! o, procs, iin, iout, links })
+  | _ => none
+
+def parseArch (fs : List String) : Option (Nat × Arch) :=
+  match fs with
+  | [p, rs, r, n, m, l, o, mode, ws, ops] =>
+    let opl := (ops.drop 4).toString
+    some (nat! p, { rsize := nat! rs, r := nat! r, n := nat! n, m := nat! m, l := nat! l, o := nat! o,
+                    mode := if mode = "vn" then .vn else if mode = "hy" then .hy else .ha, wordSize := nat! ws,
+                    ops := if opl = "" then [] else opl.splitOn "," })
+  | _ => none
+
+def joinN (l : List Nat) : String := ",".intercalate (l.map toString)
+def joinB (l : List Bool) : String := ",".intercalate (l.map fun b => if b then "1" else "0")
+def bools (s : String) : List Bool := (commaList s).map (· == "1")
+def nats (s : String) : List Nat := (commaList s).map nat!
+def semiLists (s : String) : List (List Nat) := if s = "" then [] else (s.splitOn ";").map nats
+def streamsStr (ss : List (List Nat)) : String := ";".intercalate (ss.map joinN)
+
+def setAt {α} (l : List α) (i : Nat) (x d : α) : List α :=
+  (l ++ List.replicate (i + 1 - l.length) d).set i x
+
+/-! ### netlist comparison -/
+
+def tdeclKey (d : TDecl) : String := s!"{d.dir} {d.kind} {d.width} {d.name}"
+def instKey (i : String × String × List String) : String := s!"{i.1} {i.2.1} {" ".intercalate i.2.2}"
+def assignKey (a : String × String × List String) : String := s!"{a.1} {a.2.1} {" ".intercalate a.2.2}"
+
+def sortS (l : List String) : List String := l.mergeSort (· ≤ ·)
+
+def firstDiff (tag : String) (impl model : List String) : Option String :=
+  if impl = model then none
+  else
+    match impl.find? (fun x => !model.contains x), model.find? (fun x => !impl.contains x) with
+    | some x, _ => some s!"{tag}: emitted but not in the model: {x}"
+    | none, some y => some s!"{tag}: in the model but not emitted: {y}"
+    | none, none => some s!"{tag}: same elements, different order or multiplicity"
+
+def allDistinct (l : List String) : Bool :=
+  let s := sortS l
+  (s.zip (s.drop 1)).all fun (a, b) => a != b
+
+def compareNet (impl : TNetlist) (other : Nat) (t : Topo) (rsize : Nat) : String :=
+  let nl := wire t rsize
+  let model := nl.render
+  let checks := [
+    firstDiff "ports" impl.ports model.ports,
+    firstDiff "decls" (sortS (impl.decls.map tdeclKey)) (sortS (model.decls.map tdeclKey)),
+    firstDiff "instances" (sortS (impl.insts.map instKey)) (sortS (model.insts.map instKey)),
+    firstDiff "assigns" (sortS (impl.assigns.map assignKey)) (sortS (model.assigns.map assignKey)),
+    if other = 0 then none else some s!"other-items: {other} module items that are neither declaration, instance nor assign" ]
+  match checks.filterMap id with
+  | d :: _ => "N differ " ++ d
+  | [] =>
+    -- rendering is injective on the nets of this netlist (so the textual netlist has the
+    -- connectivity of the structured one that `netlist_exact` speaks about)
+    let nets := nl.nets.eraseDups
+    if allDistinct (nets.map Net.render) then "N ok names=ok" else "N differ names: two nets render to the same identifier"
+
+/-! ### the emitted hardware -/
+
+structure HwProc where
+  pc : Nat
+  regs : List Nat
+  auxo : List Nat
+  oval : List (Option Nat)
+  irecv : List (Option Nat)
+  waitsm : Option Nat
+
+structure Hw where
+  d : Design
+  clk : Nat
+  reset : Nat
+  inp : List Nat
+  ival : List Nat
+  orecv : List Nat
+  outp : List Nat
+  oval : List Nat
+  irecv : List Nat
+  procs : List HwProc
+
+def mkHw (t : Topo) (archs : List Arch) (line : String) : R Hw := do
+  let d ← Design.ofString line (some "bondmachine")
+  let clk ← d.sigIdx "clk"
+  let reset ← d.sigIdx "reset"
+  d.checkClock clk
+  let inp ← (List.range t.inputs).mapM fun k => d.sigIdx s!"i{k}"
+  let ival ← (List.range t.inputs).mapM fun k => d.sigIdx s!"i{k}_valid"
+  let irecv ← (List.range t.inputs).mapM fun k => d.sigIdx s!"i{k}_received"
+  let outp ← (List.range t.outputs).mapM fun k => d.sigIdx s!"o{k}"
+  let oval ← (List.range t.outputs).mapM fun k => d.sigIdx s!"o{k}_valid"
+  let orecv ← (List.range t.outputs).mapM fun k => d.sigIdx s!"o{k}_received"
+  let procs ← archs.zipIdx.mapM fun (a, p) => do
+    let pre := s!"a{p}_inst.p{p}_instance."
+    let pc ← d.sigIdx (pre ++ "_pc")
+    let regs ← (List.range (2 ^ a.r)).mapM fun k => d.sigIdx (pre ++ s!"_r{k}")
+    let auxo ← (List.range a.m).mapM fun k => d.sigIdx (pre ++ s!"_auxo{k}")
+    pure ({ pc, regs, auxo
+            oval := (List.range a.m).map fun k => d.sigIdx? (pre ++ s!"o{k}_val")
+            irecv := (List.range a.n).map fun k => d.sigIdx? (pre ++ s!"i{k}_recv")
+            waitsm := d.sigIdx? (pre ++ "waitsm") } : HwProc)
+  pure { d, clk, reset, inp, ival, orecv, outp, oval, irecv, procs }
+
+def bn (b : Bool) : Nat := if b then 1 else 0
+
+def hwInputs (h : Hw) (e : EnvIn) : List (Nat × Nat) :=
+  [(h.reset, 0)] ++ h.inp.zip e.inRegs ++ h.ival.zip (e.inValid.map bn) ++ h.orecv.zip (e.outRecv.map bn)
+
+def hwObserve (h : Hw) (st : State) : EnvOut :=
+  { outRegs := h.outp.map st.get, outValid := h.oval.map (fun i => st.get i != 0), inRecv := h.irecv.map (fun i => st.get i != 0) }
+
+def procDump (pc : Nat) (regs auxo : List Nat) (ov ir : List Bool) (w : Bool) : String :=
+  s!"pc={pc} r={joinN regs} o={joinN auxo} ov={joinB ov} ir={joinB ir} w={bn w}"
+
+def hwDump (h : Hw) (st : State) : String :=
+  " | ".intercalate (h.procs.map fun p =>
+    procDump (st.get p.pc) (p.regs.map st.get) (p.auxo.map st.get)
+      (p.oval.map fun o => match o with | some i => st.get i != 0 | none => false)
+      (p.irecv.map fun o => match o with | some i => st.get i != 0 | none => false)
+      (match p.waitsm with | some i => st.get i != 0 | none => false))
+
+/-- the registers `oK_val` / `iK_recv` / `waitsm` exist only if some opcode declares them -/
+def rtlDump (h : Hw) (s : HwState) : String :=
+  " | ".intercalate ((h.procs.zip s.procs).map fun (p, r) =>
+    procDump r.pc r.regs r.auxo
+      ((List.range r.oVal.length).map fun k => ((p.oval.getD k none).isSome) && r.oVal.getD k false)
+      ((List.range r.iRecv.length).map fun k => ((p.irecv.getD k none).isSome) && r.iRecv.getD k false)
+      (p.waitsm.isSome && r.waitsm))
+
+structure HdlResult where
+  sh : String := ""
+  yz : String := ""
+  hr : String := "-"
+
+/-- closed loop: the emitted Verilog under BMV.Vlog + the environment automaton; in lock step the
+    hardware model `Bm.rtlCycle` gets the same stimulus and is compared register by register -/
+def runHdl (m : Machine) (spec : EnvSpec) (h : Hw) (clocks : Nat) : HdlResult := Id.run do
+  let st0 := match (do let s0 ← h.d.init; h.d.cycle h.clk s0 [(h.reset, 1)]) with
+    | .ok s => some s
+    | .error _ => none
+  match st0 with
+  | none => return { sh := "", yz := "YZ fail@reset", hr := "-" }
+  | some st0 =>
+    let mut st := st0
+    let mut env := envInit spec m.topo.inputs m.topo.outputs
+    let mut hs := hwInit m
+    let mut yz : Option String := none
+    let mut hr : Option Nat := none
+    let mut n := 0
+    for c in [0:clocks] do
+      env := envStep spec env (hwObserve h st)
+      let e := envDrive env
+      if yz.isNone && hr.isNone && bmRtlHazard m hs e then hr := some c
+      match h.d.cycle h.clk st (hwInputs h e) with
+      | .error err =>
+        yz := yz.orElse fun _ => some s!"YZ fail@{c} {err}"
+        break
+      | .ok st2 =>
+        st := st2
+        if yz.isNone then
+          hs := rtlCycle m hs e
+          let y := hwDump h st
+          let z := rtlDump h hs
+          if y != z then yz := some s!"YZ differ@{c} Y {y} Z {z}"
+      n := c + 1
+    return { sh := streamsStr (envStreams env)
+             yz := yz.getD s!"YZ ok {n}"
+             hr := match hr with | some c => toString c | none => "-" }
+
+/-! ### state of the oracle -/
+
+structure St where
+  rsize : Nat := 8
+  topo : Topo := {}
+  archs : List Arch := []
+  progs : List (List Bits) := []
+  -- netlist lines
+  netSeen : Bool := false
+  netErr : Option String := none
+  tn : TNetlist := { ports := [], decls := [], insts := [], assigns := [] }
+  other : Nat := 0
+  -- hardware
+  hw : Option Hw := none
+  -- environment
+  spec : Option EnvSpec := none
+  clocks : Nat := 0
+  -- simulator model
+  bm : Option BmState := none
+  started : Bool := false
+  env : EnvSt := {}
+  tick : Nat := 0
+  evDiff : Option Nat := none
+  hzIsa : Option Nat := none
+
+def St.machine (st : St) : Machine := { topo := st.topo, archs := st.archs, progs := st.progs }
+
+def dumpProc (s : VmState) : String :=
+  let d := s.deferred.mergeSort (· ≤ ·)
+  s!"pc={s.pc} r={joinN s.regs} in={joinN s.inputs} iv={joinB s.inValid} ir={joinB s.inRecv} o={joinN s.outputs} ov={joinB s.outValid} or={joinB s.outRecv} d={joinN d}"
+
+def dumpBm (s : BmState) : String :=
+  let head := s!"X o={joinN s.outRegs} ov={joinB s.outValid} ir={joinB s.inRecv} ii={joinN s.iiRegs} iiv={joinB s.iiValid} iir={joinB s.iiRecv} io={joinN s.ioRegs} iov={joinB s.ioValid} ior={joinB s.ioRecv}"
+  s.procs.foldl (fun acc p => acc ++ " | " ++ dumpProc p) head
+
+def endCase (st : St) : List String :=
+  let netLines :=
+    if st.netSeen then
+      match st.netErr with
+      | some e => ["N differ reader: " ++ e]
+      | none => [compareNet { st.tn with decls := st.tn.decls.reverse, insts := st.tn.insts.reverse, assigns := st.tn.assigns.reverse } st.other st.topo st.rsize]
+    else []
+  let simLines :=
+    if st.started then
+      match st.spec with
+      | some _ =>
+        [match st.evDiff with | none => "EV ok" | some t => s!"EV differ@{t}",
+         s!"HI {match st.hzIsa with | some t => toString t | none => "-"}",
+         "MS " ++ streamsStr (envStreams st.env)]
+      | none => [s!"HI {match st.hzIsa with | some t => toString t | none => "-"}"]
+    else []
+  let hdlLines :=
+    match st.hw, st.spec with
+    | some h, some spec =>
+      let m := st.machine
+      let r := runHdl m spec h st.clocks
+      let (_, envR, hzR) := runRtl m spec st.clocks (hwInit m, envInit spec m.topo.inputs m.topo.outputs, false)
+      ["SH " ++ r.sh, r.yz, "HR " ++ r.hr, "SR " ++ streamsStr (envStreams envR) ++ (if hzR then " hazard" else "")]
+    | _, _ => []
+  netLines ++ simLines ++ hdlLines ++ ["Z"]
+
+def step (st : St) (line : String) : St × List String :=
+  if line.startsWith "H " then
+    if line.startsWith "H err" then ({ st with hw := none }, [line])
+    else match mkHw st.topo st.archs (line.drop 2).toString with
+      | .ok h => ({ st with hw := some h }, ["H ok"])
+      | .error e => ({ st with hw := none }, ["H rejected " ++ e])
+  else
+  let fs := fields line
+  match fs with
+  | "G" :: "err" :: _ => ({}, [line])
+  | "G" :: _ =>
+    match parseGraph fs with
+    | some (rs, t) => ({ rsize := rs, topo := t }, [line])
+    | none => ({}, ["G bad"])
+  | "NV" :: "ok" :: _ => ({ st with netSeen := true }, [])
+  | "NV" :: rest => ({ st with netSeen := true, netErr := some (" ".intercalate rest) }, [])
+  | "NP" :: ps => ({ st with tn := { st.tn with ports := ps } }, [])
+  | ["ND", dir, kind, w, name] =>
+    ({ st with tn := { st.tn with decls := { dir, kind, width := nat! w, name } :: st.tn.decls } }, [])
+  | "NI" :: md :: inst :: conns => ({ st with tn := { st.tn with insts := (md, inst, conns) :: st.tn.insts } }, [])
+  | "NA" :: lhs :: kind :: names => ({ st with tn := { st.tn with assigns := (lhs, kind, names) :: st.tn.assigns } }, [])
+  | ["NX", n] => ({ st with other := nat! n }, [])
+  | "A" :: rest =>
+    match parseArch rest with
+    | some (p, a) => ({ st with archs := setAt st.archs p a default }, [])
+    | none => (st, ["A bad"])
+  | "P" :: p :: ws => ({ st with progs := setAt st.progs (nat! p) (ws.map ofString01) [] }, [])
+  | "E" :: rest =>
+    let spec : EnvSpec := { vals := semiLists ((kv rest "vals").getD ""), idel := semiLists ((kv rest "idel").getD ""),
+                            odel := semiLists ((kv rest "odel").getD "") }
+    ({ st with spec := some spec, clocks := nat! ((kv rest "clocks").getD "0") }, [])
+  | "T" :: "err" :: _ => (st, [line])
+  | "T" :: _ =>
+    let m := st.machine
+    let spec := st.spec.getD {}
+    ({ st with bm := some (Bm.init m), started := true, env := envInit spec m.topo.inputs m.topo.outputs, tick := 0 }, [])
+  | "V" :: rest =>
+    let e : EnvIn := { inRegs := nats ((kv rest "in").getD ""), inValid := bools ((kv rest "iv").getD ""),
+                       outRecv := bools ((kv rest "or").getD "") }
+    match st.bm with
+    | none => ({ st with tick := st.tick + 1 }, ["X fail"])
+    | some s =>
+      let m := st.machine
+      -- the Lean automaton, closed loop with the model
+      let env' := match st.spec with
+        | some spec => envStep spec st.env (observeIsa s)
+        | none => st.env
+      let evDiff := match st.spec, st.evDiff with
+        | some _, none => if envDrive env' = e then none else some st.tick
+        | _, d => d
+      let s1 := setEnv s e
+      let hz := match st.hzIsa with
+        | some t => some t
+        | none => if bmIsaHazard m s1 then some st.tick else none
+      match isaStep m s1 with
+      | some s2 => ({ st with bm := some s2, env := env', evDiff, hzIsa := hz, tick := st.tick + 1 }, [dumpBm s2])
+      | none => ({ st with bm := none, env := env', evDiff, hzIsa := hz, tick := st.tick + 1 }, ["X fail"])
+  | "Z" :: _ => ({}, endCase st)
+  | _ => (st, [])
+
+def main : IO Unit := do
+  let _ ← foldStdin ({} : St) step
